@@ -13,7 +13,7 @@ additivity (sequence vs the sum of its single-residue sequences), permutation in
 ambiguity codes vs the IUPAC member lists, density = mass / volume, prefix vs class, FASTA round trip and
 typing by extension, and the plain residue rows vs a frozen reference copy (Perkins 1985 as shipped)."""
 import json, os, sys, random, shutil, tempfile, math
-from pyenc import enc, cstr, err_kind
+from pyenc import enc, cstr, err_kind, attempt
 from fcommon import struct_term, atom_key
 import periodictable
 from periodictable import fasta
@@ -54,9 +54,9 @@ def mol_term(m):
     """Coq term of type molobs for a Molecule / Sequence (or for the exception raised building it)"""
     if isinstance(m, BaseException):
         return "(ME %s)" % err_kind(m)
-    return "(MO %s %s %s %s %s %s %s %s %s %s)" % (
+    return "(MO %s %s %s %s %s %s %s %s %s %s %s)" % (
         enc(m.name), cstr(getattr(m, "sequence", "")), enc(m.cell_volume), enc(m.charge), enc(m.mass), enc(m.Dmass),
-        enc(m.labile_formula.density), enc(m.natural_formula.density),
+        enc(m.labile_formula.density), enc(m.natural_formula.density), enc(attempt(lambda: m.density)),
         struct_term(m.labile_formula.structure), struct_term(m.natural_formula.structure))
 
 
@@ -97,6 +97,9 @@ def same_molecule(a, b, tol=1e-10):
     da, db = a.natural_formula.density, b.natural_formula.density
     if not close(da, db, tol=tol):
         out.append("natural_density")
+    da, db = getattr(a, "density", None), getattr(b, "density", None)
+    if (da is None) != (db is None) or (da is not None and not close(da, db, tol=tol)):
+        out.append("density")
     return out
 
 
@@ -140,6 +143,9 @@ def check_additive(ty, s, seq):
     if not close(d, expect):
         fail("C18:density:%s" % ty, "Sequence(%r, type=%r): natural density %r is not mass/(N_A V 1e-24) = %r"
              % (short(s), ty, d, expect), type=ty, sequence=s)
+    elif hasattr(seq, "density") and not close(seq.density, expect):
+        fail("C18:density-attribute:value", "Sequence(%r, type=%r).density = %r is not mass/(N_A V 1e-24) = %r"
+             % (short(s), ty, seq.density, expect), type=ty, sequence=s, observable="density")
 
 
 def short(s):
